@@ -220,6 +220,22 @@ namespace {
          // a type that no declaration of this history uses
          if (ovl.get()[w.lex.double_type()].is_valid()) fail("C07:select:absent-type-found", h, "selecting by an unrelated type yields a declaration");
       }
+      // 5a. the declaration-sets of ALL declarations are obtained first and examined afterwards (a reference handed out for
+      //     one declaration must not be repointed by asking the next one)
+      {
+         std::vector<const ipr::Sequence<ipr::Decl>*> sets(n, nullptr);
+         for (std::size_t i = 0; i < n; ++i) { try { sets[i] = &model[i].decl->decl_set(); } catch (const std::exception&) { } }
+         for (std::size_t i = 0; i < n; ++i) {
+            if (sets[i] == nullptr) continue;
+            std::vector<const ipr::Decl*> group;
+            for (auto& o : model) if (o.name == model[i].name and o.slot == model[i].slot) group.push_back(o.decl);
+            bool same = sets[i]->size() == group.size();
+            std::size_t j = 0;
+            if (same) for (auto& m : *sets[i]) { same = same and &m == group[j]; ++j; }
+            rep.count("transitions");
+            if (not same) { fail("C07:decl-set:changed-by-asking-another", h, "the declaration-set obtained for declaration #" + std::to_string(i) + " holds something else once the declaration-sets of the other declarations have been asked for"); break; }
+         }
+      }
       // 5. per declaration: name, type, category, master, decl_set
       for (std::size_t i = 0; i < n; ++i) {
          const Entry& e = model[i];
@@ -301,6 +317,12 @@ namespace {
          else for (std::size_t k = 0; k < n; ++k) if (&(*prod)[k] != types[k]) { hfail(c + "type-element", hw, "component #" + std::to_string(k) + " of the scope type is wrong"); break; }
       }
       else hfail(c + "type-not-product", hw, "the type of the container's scope is not a Product");
+      {
+         std::vector<const ipr::Sequence<ipr::Decl>*> sets;
+         for (std::size_t k = 0; k < n; ++k) sets.push_back(&made[k]->decl_set());
+         for (std::size_t k = 0; k < n; ++k)
+            if (sets[k]->size() != 1 or &*sets[k]->begin() != static_cast<const ipr::Decl*>(made[k])) { hfail(c + "decl-set-changed-by-asking-another", hw, "the declaration-set obtained for member #" + std::to_string(k) + " holds another member once the sets of the other members have been asked for"); break; }
+      }
       for (std::size_t k = 0; k < n; ++k) {
          const D& d = *made[k];
          rep.count("transitions", 6);
